@@ -292,6 +292,7 @@ class RaceWorld:
         self.fault = None
         self.fault_fired = False
         self.keepalive = []
+        self.current_cell = {}  # client -> (task id, client index in task) of the executor coroutine started last
         self.cell_times = {}  # (client, task id) -> [virtual start, virtual end] of the executor coroutine
         self.timed_paths = {"/_t/%d" % t["id"] for e in scn["sched"] for t in e["tasks"] if t["reqs"] == TIMED}
         self.cell_override = {}  # client -> "failed" | "aband": coroutines that died with a failing executor / a dead worker
@@ -313,8 +314,12 @@ class RaceWorld:
         orig_call = driver.AsyncExecutor.__call__
 
         async def observed_call(self_, *a, **k):
-            tid = int(self_.task.name[1:])
+            # a cell of the allocation matrix is identified by (task id, client index in task): in an over-committed parallel a
+            # client may run the SAME task in several rows (as different logical clients of that task)
+            ta_ = getattr(getattr(self_, "schedule_handle", None), "task_allocation", None)
+            tid = (int(self_.task.name[1:]), getattr(ta_, "client_index_in_task", 0))
             world.exec_obs["started"].append((self_.client_id, tid))
+            world.current_cell[self_.client_id] = tid
             world.cell_times[(self_.client_id, tid)] = [world.clock.now, None]
             try:
                 return await orig_call(self_, *a, **k)
